@@ -9,6 +9,7 @@ import (
 	"fmt"
 	"io"
 	"log/slog"
+	"net"
 	"net/http"
 	"os"
 	"path/filepath"
@@ -202,6 +203,23 @@ func VerifMgr(kv map[string]string) string {
 				mp = string(m[1])
 			}
 			out = append(out, fmt.Sprintf("r:%s:%d:%s:%s:%d", res, lm.configVersion, ret, mp, sc.seen))
+		case "U", "S":
+			// over a real unix socket with ONE shared http.Client for the version check and the API (as cmd/nginx-ingress wires
+			// them): the i-th connection the server accepts belongs to a worker process running version workers[i] (the last entry
+			// repeats). A worker answers the check with 200 iff it runs the expected version; an API request that arrives on a
+			// connection whose worker never answered 200 reached a worker that did not confirm the current version.
+			var workers []string
+			for _, w := range strings.Split(f[1], "+") {
+				switch w {
+				case "cur":
+					w = strconv.Itoa(lm.configVersion)
+				case "old":
+					w = strconv.Itoa(lm.configVersion - 1)
+				}
+				workers = append(workers, w)
+			}
+			res, unconfirmed, apis := verifSocketUpdate(lm, dir, workers, f[0] == "S")
+			out = append(out, fmt.Sprintf("%s:%s:%d:%d", f[0], res, unconfirmed, apis))
 		case "u", "s":
 			worker := f[1]
 			if worker == "cur" {
@@ -232,4 +250,98 @@ func VerifMgr(kv map[string]string) string {
 		}
 	}
 	return strings.Join(out, ";")
+}
+
+// verifSocketUpdate runs one UpdateServersInPlus / UpdateStreamServersInPlus against a unix-socket server that plays NGINX
+// workers of several generations (see the "U" op). Returns the operation's result, the number of API requests served by a
+// worker that had not confirmed the version on that connection, and whether any API request was seen (0/1).
+func verifSocketUpdate(lm *LocalManager, dir string, workers []string, stream bool) (string, int, int) {
+	sock := filepath.Join(dir, fmt.Sprintf("api-%d.sock", time.Now().UnixNano()))
+	ln, err := net.Listen("unix", sock)
+	if err != nil {
+		return "listen-error", 0, 0
+	}
+	defer ln.Close()
+	var mu sync.Mutex
+	nconn, unconfirmed, apis := 0, 0, 0
+	type connKey struct{}
+	srv := &http.Server{
+		ConnContext: func(ctx context.Context, _ net.Conn) context.Context {
+			mu.Lock()
+			i := nconn
+			nconn++
+			mu.Unlock()
+			if i >= len(workers) {
+				i = len(workers) - 1
+			}
+			st := &struct {
+				version   string
+				confirmed bool
+			}{version: workers[i]}
+			return context.WithValue(ctx, connKey{}, st)
+		},
+		Handler: http.HandlerFunc(func(w http.ResponseWriter, r *http.Request) {
+			st := r.Context().Value(connKey{}).(*struct {
+				version   string
+				confirmed bool
+			})
+			if strings.HasPrefix(r.URL.Path, "/configVersionCheck") {
+				if r.Header.Get("x-expected-config-version") == st.version {
+					st.confirmed = true
+					w.WriteHeader(200)
+				} else {
+					w.WriteHeader(503)
+				}
+				return
+			}
+			mu.Lock()
+			apis++
+			if !st.confirmed {
+				unconfirmed++
+			}
+			mu.Unlock()
+			w.Header().Set("Content-Type", "application/json")
+			switch {
+			case r.Method == http.MethodGet && strings.HasSuffix(strings.TrimSuffix(r.URL.Path, "/"), "/api"):
+				_, _ = w.Write([]byte("[4,5,6,7,8,9]"))
+			case r.Method == http.MethodGet:
+				_, _ = w.Write([]byte("[]"))
+			default:
+				w.WriteHeader(201)
+				_, _ = w.Write([]byte("{}"))
+			}
+		}),
+	}
+	go func() { _ = srv.Serve(ln) }()
+	defer srv.Close()
+	hc := &http.Client{Transport: &http.Transport{DialContext: func(_ context.Context, _, _ string) (net.Conn, error) { return net.Dial("unix", sock) }}}
+	pc, err := client.NewNginxClient("http://nginx-plus-api/api", client.WithHTTPClient(hc), client.WithAPIVersion(9), client.WithCheckAPI())
+	if err != nil {
+		pc, err = client.NewNginxClient("http://nginx-plus-api/api", client.WithHTTPClient(hc))
+		if err != nil {
+			return "client-error", 0, 0
+		}
+	}
+	// what the client did while it was being set up does not count, and its connections are dropped: the update starts fresh
+	hc.CloseIdleConnections()
+	mu.Lock()
+	nconn, unconfirmed, apis = 0, 0, 0
+	mu.Unlock()
+	lm.SetPlusClients(pc, hc)
+	if stream {
+		err = lm.UpdateStreamServersInPlus("up", []string{"10.0.0.1:80"})
+	} else {
+		err = lm.UpdateServersInPlus("up", []string{"10.0.0.1:80"}, ServerConfig{})
+	}
+	res := "ok"
+	if err != nil {
+		res = "fail"
+	}
+	mu.Lock()
+	defer mu.Unlock()
+	a := 0
+	if apis > 0 {
+		a = 1
+	}
+	return res, unconfirmed, a
 }
